@@ -33,6 +33,9 @@ Expressions (nested tuples, JSON-able):
          ("getitem", y, yshape, index)          x = y[index]
          ("sum2", y, z)                         x = y + z
          ("scale", y)                           x = 2 y - 1
+    ("osubs", e, pairs)                         the same substitution, handed over as funsor.terms.Subs(e, pairs) with the
+                                                pairs in exactly this order (x(**kw) re-orders them into x.inputs order)
+    ("lin", ((name, shape, coef), ...))         lazy linear term  sum_j coef_j * sum(elements of name_j)
     ("align", e, names)   ("compress", e)       value-preserving
     ("cat", name, part_name, parts)
 """
@@ -373,12 +376,16 @@ def ty(e):
         return out
     if tag == "N":
         return out
+    if tag == "lin":
+        for n, shape, _ in e[1]:
+            _merge(out, n, ("r", tuple(shape)))
+        return out
     if tag == "add":
         for sub in (e[1], e[2]):
             for n, d in ty(sub).items():
                 _merge(out, n, d)
         return out
-    if tag == "subs":
+    if tag in ("subs", "osubs"):
         inner = ty(e[1])
         keys = [n for n, _ in e[2]]
         if len(set(keys)) != len(keys):
@@ -470,9 +477,15 @@ def ev(e, env, seed):
         return float(data[tuple(int(env[n]) for n, _, _ in e[2])])
     if tag == "N":
         return float(e[1])
+    if tag == "lin":
+        total = 0.0
+        for n, shape, coef in e[1]:
+            v = np.asarray(env[n], float)
+            total = total + coef * v.reshape(v.shape[0], -1).sum(1)
+        return total
     if tag == "add":
         return ev(e[1], env, seed) + ev(e[2], env, seed)
-    if tag == "subs":
+    if tag in ("subs", "osubs"):
         inner = ty(e[1])
         new = dict(env)
         for n, val in e[2]:
